@@ -172,6 +172,10 @@ func (sc *Scheduler) Schedule(ctx context.Context, g *ExecutionGraph, done chan 
 							node.setStatus(NodeStatusCancel)
 							sc.setLastError(execErr)
 						case sc.isCanceled():
+							// The run is being stopped and the step did not
+							// complete: it must not be left running (or be
+							// taken for finished).
+							node.setStatus(NodeStatusCancel)
 							sc.setLastError(execErr)
 						case node.data.Step.RetryPolicy != nil && node.data.Step.RetryPolicy.Limit > node.getRetryCount():
 							// retry
